@@ -100,7 +100,7 @@ def run_scenario(args):
         r, mod = ask('oracles:all(%d clauses)' % len(allclauses), Or(*[g for _, _, g in allclauses]))
         todo = [] if r == 'unsat' else list(spec['oracles'])
         if r not in ('sat', 'unsat'):
-            out['status'] = 'inconclusive'; out['notes'].append('oracles: solver %s' % (mod,))
+            out['notes'].append('combined oracle query: solver %s; asking the oracles one by one' % (mod,))
         for oname in todo:
             clauses = [(n, g) for o, n, g in allclauses if o == oname]
             excl = TRUE
